@@ -36,7 +36,7 @@ def run(ctx):
     if ctx.tier == "thorough":
         # beyond the exhaustive bound: random behaviours over lists of length 0..5 (seeded); keep the length-5 lists
         D.write_params(ctx, {"MaxLen": MAXLEN + 1, "ObsFile": ""})
-        sim = D.run_tlc(ctx, "C17_MC", "C17_mc.cfg", simulate="num=600", depth=MAXLEN + 4, tag="sim")
+        sim = D.run_tlc(ctx, "C17_MC", "C17_mc.cfg", simulate="num=300", depth=MAXLEN + 4, tag="sim")
         if sim.violated:
             raise D.Inconclusive("specification violates %s on a length-%d list" % (sim.violated, MAXLEN + 1))
         extra = unique([c for c in sim.records if "-L%d-" % (MAXLEN + 1) in "-" + c["list"]])
